@@ -159,7 +159,7 @@ SHAPES = [
 # tokens that must not occur anywhere in treap_node.rs unless the generator was classified `racy`
 FORBIDDEN_TOKENS = [r"\bunsafe\b", r"\bstatic mut\b", r"UnsafeCell", r"\*mut\b", r"\*const\b", r"addr_of", r"transmute", r"\bextern\b",
                     r"no_mangle", r"link_name", r"macro_rules", r"\basm!", r"include!", r"#\[path", r"\bmod\b", r"\bimpl Sync\b", r"\bimpl Send\b",
-                    r"\bunion\b", r"\bas_ptr\b", r"\bNonNull\b", r"\bAtomicPtr\b", r'"']
+                    r"\bunion\b", r"\bas_ptr\b", r"\bNonNull\b", r"\bAtomicPtr\b"]
 ALLOWED_USES = {
     "use rlib_rand::Rng;", "use std::cell::Cell;", "use std::cell::RefCell;", "use std::sync::Mutex;",
     "use std::sync::atomic::{AtomicU64,Ordering};", "use std::sync::atomic::{Ordering,AtomicU64};",
@@ -167,11 +167,22 @@ ALLOWED_USES = {
 }
 
 
+def use_ok(u):
+    """whitelisted, or an import that cannot bring in or rename anything the classification looks at"""
+    n = norm(u)
+    if n in {norm(x) for x in ALLOWED_USES}:
+        return True
+    if re.search(r"\bas\b", u) or "*" in u:
+        return False
+    return not re.search(r"\b(Rng|Priority|gen_priority|cell|Cell|RefCell|UnsafeCell|sync|Mutex|RwLock|Atomic\w*|Ordering|ptr|mem|ffi|alloc|"
+                         r"intrinsics|arch|thread|LocalKey|Once\w*|Lazy\w*|rlib_rand)\b", n)
+
+
 def classify_treap_node(src):
     """-> (info dict, problems).  info: discipline, declaration, access, seed, bits, name"""
     problems = []
     info = {"discipline": "unknown", "declaration": "", "access": "", "seed": None, "bits": None}
-    code = strip_rust_comments(src)
+    code = strip_cfg_test_mods(blank_strings(strip_rust_comments(src)))
     a = code.find("pub trait TreapItemSized")
     b = code.find("pub struct TreapNode<T>")
     if a < 0 or b < 0 or b < a:
@@ -181,6 +192,7 @@ def classify_treap_node(src):
     if a_end < 0 or a_end > b:
         return info, ["treap_node.rs: cannot delimit the generator region"]
     region = code[a_end:b]
+    info["region_text"] = region
     rest = code[:a_end] + "\n" + code[b:]
 
     # -- the region: `type Priority = uN;`, optional attributes, `fn gen_priority`, and the declaration
@@ -190,7 +202,8 @@ def classify_treap_node(src):
     else:
         info["bits"] = int(m[0])
     region2 = re.sub(r"\btype\s+Priority\s*=\s*u(8|16|32|64)\s*;", " ", region)
-    region2 = re.sub(r"#\[allow\([\w,\s]*\)\]", " ", region2)
+    region2 = re.sub(r"#\[(?:allow\([\w,\s]*\)|inline(?:\(\w+\))?|must_use|cold)\]", " ", region2)
+    region2 = re.sub(r"\bpub(?:\((?:crate|super|self)\))?\s+(?=fn\s+gen_priority\b)", "", region2)
     fm = re.search(r"\bfn\s+gen_priority\s*\(\s*\)\s*->\s*Priority\s*\{", region2)
     if not fm:
         problems.append("treap_node.rs: `fn gen_priority() -> Priority` not found next to the generator declaration")
@@ -248,7 +261,7 @@ def classify_treap_node(src):
             problems.append(f"treap_node.rs: `{tok}` occurs outside the generator declaration / gen_priority")
             disc = "unknown" if disc != "racy" else disc
     for u in re.findall(r"^\s*(use\s[^;]*;)", code, flags=re.M):
-        if norm(u) not in {norm(x) for x in ALLOWED_USES}:
+        if not use_ok(u):
             problems.append(f"treap_node.rs: unexpected import `{norm(u)}`")
             disc = "unknown" if disc != "racy" else disc
     if disc != "racy":
@@ -259,6 +272,87 @@ def classify_treap_node(src):
                 disc = "unknown"
     info["discipline"] = disc
     return info, problems
+
+
+def blank_strings(code):
+    """replace the contents of string and char literals by nothing (keeps the quotes)"""
+    code = re.sub(r'"(?:\\.|[^"\\])*"', '""', code)
+    return re.sub(r"'(?:\\.|[^'\\])'", "''", code)
+
+
+def strip_cfg_test_mods(code):
+    """remove `#[cfg(test)] mod name { ... }` blocks (test-only code is not part of the library)"""
+    while True:
+        m = re.search(r"#\[cfg\(test\)\]\s*(?:pub\s+)?mod\s+\w+\s*\{", code)
+        if not m:
+            return code
+        end = match_brace(code, m.end() - 1)
+        if end < 0:
+            return code
+        code = code[:m.start()] + " " + code[end:]
+
+
+def crate_closure(repo, roots=("rlib/treap", "rlib/rand")):
+    """the crates the treap depends on (path dependencies, transitively), as paths relative to the repository"""
+    seen, todo = [], list(roots)
+    while todo:
+        c = os.path.normpath(todo.pop(0))
+        if c in seen:
+            continue
+        seen.append(c)
+        try:
+            toml = open(os.path.join(repo, c, "Cargo.toml")).read()
+        except OSError:
+            continue
+        for dep in re.findall(r'path\s*=\s*"([^"]+)"', toml):
+            todo.append(os.path.join(c, dep))
+    return seen
+
+
+PLAIN_STATIC = (r"static\s+\w+\s*:\s*(?:&\s*(?:'static\s+)?)?(?:str|bool|char|f32|f64|[ui](?:8|16|32|64|128|size)"
+                r"|\[\s*(?:&\s*(?:'static\s+)?str|bool|char|f32|f64|[ui](?:8|16|32|64|128|size))\s*(?:;\s*[\w\s+*]+)?\])\s*=")
+SHARED_STATE_TOKENS = [
+    (r"(?<!')\bstatic\s+mut\b", "`static mut`"),
+    (r"\bunsafe\b", "`unsafe`"),
+    (r"\bUnsafeCell\b|\bSyncUnsafeCell\b", "UnsafeCell"),
+    (r"\*\s*mut\b|\*\s*const\b|\bNonNull\b|\bAtomicPtr\b|\baddr_of", "raw pointer"),
+    (r"\bimpl\s*(?:<[^>]*>\s*)?(?:Sync|Send)\b", "`impl Sync/Send`"),
+    (r"\bextern\b|no_mangle|link_name|\basm!|global_asm!", "extern/asm"),
+    (r"\binclude!|#\[path", "code pulled in from another file"),
+    (r"\bset_var\b|\bremove_var\b", "process environment written"),
+]
+
+
+def scan_shared_state(repo, generator_file, generator_region):
+    """Every .rs of the treap crate, of rlib_rand and of the crates they depend on: any process-wide mutable state
+    besides the whitelisted generator declaration?  -> (problems, files scanned)"""
+    problems, files = [], []
+    for crate in crate_closure(repo):
+        src = os.path.join(repo, crate, "src")
+        for dirpath, _dirs, names in os.walk(src):
+            for fn in sorted(names):
+                if not fn.endswith(".rs"):
+                    continue
+                path = os.path.join(dirpath, fn)
+                rel = os.path.relpath(path, repo)
+                files.append(rel)
+                try:
+                    code = strip_rust_comments(open(path).read())
+                except OSError as e:
+                    problems.append(f"{rel}: not readable: {e}")
+                    continue
+                if os.path.abspath(path) == os.path.abspath(generator_file) and generator_region:
+                    code = code.replace(generator_region, " ", 1)
+                code = strip_cfg_test_mods(blank_strings(code))
+                for m in re.finditer(r"(?<!')\bstatic\b(?!\s+mut\b)", code):
+                    item = code[m.start():m.start() + 160]
+                    if not re.match(PLAIN_STATIC, item):
+                        problems.append(f"{rel}: process-wide `static` that is not a plain constant table: `{norm(item.split(';')[0])[:110]}` "
+                                        "(interior mutability / shared state between threads is not covered by the extracted discipline)")
+                for rx, what in SHARED_STATE_TOKENS:
+                    if re.search(rx, code):
+                        problems.append(f"{rel}: {what} outside the whitelisted generator declaration")
+    return problems, files
 
 
 def extract_lcg(repo):
@@ -356,6 +450,15 @@ def extract(repo):
             problems.append("treap_node.rs: the fetch_update closure does not use the multiplier/increment of `Rng` "
                             "(the atomic state would not follow the generator's transition)")
             params["discipline"] = info["discipline"] = "unknown"
+    gen_file = os.path.join(repo, "rlib/treap/src/treap_node.rs")
+    p3, scanned = scan_shared_state(repo, gen_file, info.get("region_text", ""))
+    params["files_scanned"] = scanned
+    if p3:
+        problems += p3
+        if info["discipline"] in SAFE:
+            problems.append("process-wide state besides the priority generator: threads operating on their own treaps can interfere "
+                            "through it — the extracted discipline does not cover it, nothing is assumed")
+            info["discipline"] = "unknown"
     if any("no longer a plain value type" in q for q in p2) and info["discipline"] in SAFE:
         # the discipline of the cell says nothing if the generator itself keeps state elsewhere
         problems.append("rand/src/lcg.rs keeps state outside the value (static/unsafe/cell/atomic tokens): the discipline found in "
@@ -365,6 +468,7 @@ def extract(repo):
         # recognised, and recognised as the unsynchronised shape: c17 will not compile; say so up front
         problems.append("treap_node.rs: the priority generator is a `static mut` mutated in an unsynchronised `unsafe` block "
                         "(discipline racy): data race as soon as two threads create nodes")
+    params["discipline"] = info["discipline"]
     params["constants_complete"] = all(params.get(k) is not None for k in ("A", "C", "mixmul", "mixshift", "seed", "priority_bits"))
     text = render_generated(info)
     old = open(GENERATED).read() if os.path.exists(GENERATED) else None
@@ -395,7 +499,7 @@ def nontrivial(case, rec):
         return False
     if ts[0] == "stream":
         return int(ts[-1]) >= 2
-    if ts[0] == "conc":
+    if ts[0] in ("conc", "tie", "deep"):
         return int(ts[2]) >= 2 and int(ts[3]) >= 1
     if ts[0] in ("sched", "fsched") and len(parts) == 3:
         return sum(1 for m in parts[1].split() if int(m) > 0) >= 2
@@ -419,28 +523,64 @@ def miri_available():
     return True, (r.stdout or "").strip()
 
 
-def run_miri(crate_dir, seed):
-    """-> dict(status = clean|race|ub|skipped, detail, seed, cmd)"""
-    cmd = ["cargo", "+nightly", "miri", "run", "--offline"]
+def run_miri(crate_dir, seed, disc):
+    """The harness binary in `miri` mode under Miri: two threads, the harness's full `thread_work` (insert_at, remove_at,
+    split_at, split_by, merge, first, last, root, root_mut, size, collect), then the same with forced equal priorities;
+    compared with the same operations run alone.
+    -> dict(status = clean | race | ub | interference | failed | skipped, detail, seed, cmd)"""
+    cmd = ["cargo", "+nightly", "miri", "run", "--offline", "--", "miri", disc]
     env = {"MIRIFLAGS": f"-Zmiri-seed={seed}", "CARGO_TARGET_DIR": MIRI_TARGET}
-    res = {"seed": seed, "cmd": f"cd {crate_dir} && MIRIFLAGS=-Zmiri-seed={seed} " + " ".join(cmd)}
+    res = {"seed": seed, "cmd": f"cd {crate_dir} && CARGO_TARGET_DIR={MIRI_TARGET} MIRIFLAGS=-Zmiri-seed={seed} " + " ".join(cmd)}
     try:
         r = V.run(cmd, cwd=crate_dir, env=env, timeout=900)
     except subprocess.TimeoutExpired:
-        res.update(status="skipped", detail="miri timed out after 900 s")
+        res.update(status="failed", detail=["miri did not finish within 900 s (deadlock or livelock?)"])
         return res
     out = (r.stdout or "") + "\n" + (r.stderr or "")
-    if r.returncode == 0:
-        res.update(status="clean", detail=[l for l in (r.stdout or "").split("\n") if l.startswith("thread ")][:2])
-        return res
     lines = out.split("\n")
+    if r.returncode == 0:
+        res.update(status="clean", detail=[l for l in (r.stdout or "").split("\n") if " thread " in l][:2])
+        return res
     k = next((i for i, l in enumerate(lines) if "Undefined Behavior" in l), None)
     if k is not None:
         excerpt = [l.rstrip() for l in lines[k:k + 24] if l.strip()]
         res.update(status="race" if "Data race" in lines[k] else "ub", detail=excerpt)
         return res
-    res.update(status="skipped", detail="miri could not run the program (sysroot/setup missing or build error): " + out[-600:])
+    inter = [l for l in lines if l.startswith("INTERFERENCE")]
+    if inter:
+        res.update(status="interference", detail=inter[:4])
+        return res
+    if re.search(r"could not compile|error\[E\d+\]|failed to (?:build|find|run)|sysroot|is not installed|no such (?:sub)?command|cargo miri setup", out):
+        res.update(status="skipped", detail="miri could not build/run the program (sysroot/setup missing or build error): " + out[-600:])
+        return res
+    # Miri ran the program and it did not end normally: deadlock, panic, abort, leak ...
+    k = next((i for i, l in enumerate(lines) if l.startswith("error")), 0)
+    res.update(status="failed", detail=[l.rstrip() for l in lines[k:k + 16] if l.strip()] or [out[-400:]])
     return res
+
+
+def stress_failures(ctx):
+    """the disagreements the generic run saw on real-thread cases, read back from its work files"""
+    found = []
+    for pipe in ctx["pipes"]:
+        cp = os.path.join(ctx["workdir"], f"cases.{pipe.profile}")
+        ip = os.path.join(ctx["workdir"], f"impl.{pipe.profile}")
+        mp = os.path.join(ctx["workdir"], f"model.{pipe.profile}")
+        if not (os.path.exists(cp) and os.path.exists(ip) and os.path.exists(mp)):
+            continue
+        with open(cp) as fc, open(ip) as fi, open(mp) as fm:
+            for case in fc:
+                il = fi.readline().rstrip("\n")
+                ml = fm.readline().rstrip("\n")
+                case = case.rstrip("\n")
+                if case.split(" ", 1)[0] not in ("conc", "tie", "deep", "sched", "fsched"):
+                    continue
+                rec = {"impl": V.parse_impl(il), "model": V.parse_model(ml)}
+                if rec["impl"] is None or rec["model"] is None:
+                    found.append((case, il or "<missing: harness died>", ml))
+                elif V.classify(rec) == "violation":
+                    found.append((case, il, ml))
+    return found
 
 
 def extra(ctx):
@@ -450,17 +590,21 @@ def extra(ctx):
     disc = params.get("discipline", "unknown")
     tier = ctx["tier"]
     pipes = ctx["pipes"]
-    # did the extractor or the generic stress run fail?
-    n_cases = 0
-    for pipe in pipes:
-        cp = os.path.join(ctx["workdir"], f"cases.{pipe.profile}")
-        if os.path.exists(cp):
-            n_cases += sum(1 for _ in open(cp))
-    agreed = sum(cov.get(f"agree_{p.profile}", 0) for p in pipes)
-    stress_failed = (not pipes) or agreed < n_cases
     extraction_failed = disc not in SAFE
     cov["discipline"] = disc
-    cov["stress_disagreements"] = n_cases - agreed
+
+    # -- real-thread runs are not reproducible: what was observed IS the finding (the judge is deterministic given the
+    #    observed streams / results), reported here without relying on a re-run
+    fails = stress_failures(ctx)
+    stress_failed = (not pipes) or bool(fails)
+    cov["stress_disagreements"] = len(fails)
+    cov["stress_disagreement_examples"] = [{"case": c, "impl": i[:400], "model": m[:200]} for c, i, m in fails[:5]]
+    for c, i, m in fails[:1]:
+        findings.append({"class": "violation",
+                         "what": "threads building their own treaps at the same time: observed result is not what the same operations give "
+                                 "sequentially (observed once on real threads; the case line re-runs the same programs)",
+                         "case": c, "impl": i, "model": m, "profile": "release", "observed_once": True,
+                         "other_failing_cases": [x[0] for x in fails[1:6]]})
 
     # -- the failing schedule of the model (split disciplines only)
     witness = None
@@ -478,50 +622,51 @@ def extra(ctx):
             witness = {"case": case, "error": str(e)}
         cov["model_failing_schedule"] = witness
 
-    # -- Miri
+    # -- Miri: one seed in every run, three in the thorough tier or after a failure
     miri_runs = []
-    if tier == "thorough" or extraction_failed or stress_failed:
-        ok, note = miri_available()
-        if not ok:
-            cov["miri"] = {"status": "skipped", "note": note}
-        else:
-            crate_dir, _root = V.harness_dir(CRATE, ctx["repo"])
-            crate_dir = os.path.join(crate_dir, "miri")
-            seeds = [1, 2, 3] if tier == "thorough" else [1]
-            for s in seeds:
-                res = run_miri(crate_dir, s)
-                miri_runs.append(res)
-                if res["status"] != "clean":
-                    break
-            cov["miri"] = {"version": note, "runs": miri_runs}
-            cov["extra_evaluations"] = cov.get("extra_evaluations", 0) + sum(1 for r in miri_runs if r["status"] in ("clean", "race", "ub"))
+    ok, note = miri_available()
+    if not ok:
+        cov["miri"] = {"status": "skipped", "note": note}
+        V.log("miri skipped: " + note)
     else:
-        cov["miri"] = {"status": "not-run", "note": "Miri runs in the thorough tier and whenever extraction or the stress run fails"}
+        crate_dir, _root = V.harness_dir(CRATE, ctx["repo"])
+        seeds = [1, 2, 3] if (tier == "thorough" or extraction_failed or stress_failed) else [1]
+        for s in seeds:
+            res = run_miri(crate_dir, s, disc)
+            miri_runs.append(res)
+            if res["status"] != "clean":
+                break
+        cov["miri"] = {"version": note, "runs": miri_runs,
+                       "program": "harness binary in `miri` mode: 2 threads x (14 draws, all treap operations) + 2 threads x (12 draws, forced equal priorities), each compared with the run alone"}
+        cov["extra_evaluations"] = cov.get("extra_evaluations", 0) + sum(1 for r in miri_runs if r["status"] != "skipped")
+        cov["extra_nontrivial"] = cov.get("extra_nontrivial", 0) + sum(1 for r in miri_runs if r["status"] != "skipped")
 
-    bad = [r for r in miri_runs if r["status"] in ("race", "ub")]
-    if bad:
-        r = bad[0]
-        findings.append({"class": "violation",
-                         "what": "Miri reports undefined behaviour in a two-thread program creating treap nodes",
-                         "case": f"miri two-threads -Zmiri-seed={r['seed']}",
-                         "impl": " / ".join(r["detail"][:6]),
-                         "model": (witness or {}).get("model", ""),
-                         "replay_cmd": r["cmd"], "miri": r["detail"], "model_failing_schedule": witness})
-    elif extraction_failed and disc == "racy" and witness and "model" in witness:
+    for r in miri_runs:
+        if r["status"] in ("race", "ub", "interference", "failed"):
+            what = {"race": "Miri reports a data race", "ub": "Miri reports undefined behaviour",
+                    "interference": "under Miri a thread's treap differs from the same operations run alone",
+                    "failed": "the two-thread program did not end normally under Miri"}[r["status"]]
+            findings.append({"class": "violation",
+                             "what": what + " in a two-thread program creating nodes and operating on thread-owned treaps",
+                             "case": f"miri two-threads -Zmiri-seed={r['seed']}",
+                             "impl": " / ".join(r["detail"][:6]) if isinstance(r["detail"], list) else str(r["detail"]),
+                             "model": (witness or {}).get("model", ""),
+                             "replay_cmd": r["cmd"], "miri": r["detail"], "model_failing_schedule": witness})
+        elif r["status"] == "skipped":
+            V.log("miri skipped: " + str(r["detail"])[:300])
+    if not findings and extraction_failed and disc == "racy" and witness and "model" in witness:
         # recognised as the unsynchronised shape: the model's failing schedule is the replay
         findings.append({"class": "violation",
                          "what": "priority generator is an unsynchronised static mut: the model duplicates a draw on the schedule below",
                          "case": witness["case"], "impl": witness.get("impl", ""), "model": witness.get("model", ""),
                          "model_failing_schedule": witness})
-    for r in miri_runs:
-        if r["status"] == "skipped":
-            V.log("miri skipped: " + str(r["detail"])[:300])
     return findings
 
 
 def replay(ctx, rp):
     """`./check C17 --replay f`: the generic code has already re-run the case lines through harness and driver; a Miri
     finding is re-run here with the recorded seed (deterministic for a given -Zmiri-seed)."""
+    bad = False
     for c in rp.get("cases", []):
         m = re.match(r"miri two-threads -Zmiri-seed=(\d+)", c.get("case", ""))
         if not m:
@@ -531,7 +676,9 @@ def replay(ctx, rp):
             print(f"miri replay skipped: {note}")
             continue
         crate_dir, _root = V.harness_dir(CRATE, ctx["repo"])
-        res = run_miri(os.path.join(crate_dir, "miri"), int(m.group(1)))
+        res = run_miri(crate_dir, int(m.group(1)), ctx["params"].get("discipline", "unknown"))
         print(f"miri replay (seed {m.group(1)}): {res['status']}")
+        bad = bad or res["status"] in ("race", "ub", "interference", "failed")
         for line in (res["detail"] if isinstance(res["detail"], list) else [str(res["detail"])]):
             print("  " + line)
+    return bad
